@@ -214,3 +214,30 @@ fn contains_type_path_catalogue() {
     core::mem::forget(reg);
     core::mem::forget(cases);
 }
+
+// Second concrete catalogue: longer paths, shared last segments, permutations, an underscore that a `join("_")`
+// comparison would confuse.
+#[kani::proof]
+#[kani::unwind(9)]
+fn contains_type_path_catalogue2() {
+    let reg = PortableRegistry { types: vec![
+        PortableType { id: 0, ty: prim_ty(vec!["a".to_string(), "m".to_string(), "b".to_string()]) },
+        PortableType { id: 1, ty: prim_ty(vec!["p".to_string(), "k".to_string()]) },
+        PortableType { id: 2, ty: prim_ty(vec!["q".to_string(), "k".to_string()]) },
+        PortableType { id: 3, ty: prim_ty(vec!["a_b".to_string(), "c".to_string()]) },
+    ] };
+    let q = |v: &[&str]| -> Vec<String> { v.iter().map(|s| s.to_string()).collect() };
+    let cases: [(Vec<String>, bool); 7] = [
+        (q(&["a", "x", "b"]), false), (q(&["q", "k"]), true), (q(&["k", "q"]), false), (q(&["a", "b_c"]), false),
+        (q(&["a", "m", "b"]), true), (q(&["a", "m"]), false), (q(&["m", "b"]), false),
+    ];
+    let mut i = 0;
+    while i < 7 {
+        let got = registry_contains_type_path(&reg, &cases[i].0);
+        assert!(got == cases[i].1, "registry_contains_type_path <=> some registry type has exactly this path");
+        i += 1;
+    }
+    kani::cover!(true, "catalogue executed");
+    core::mem::forget(reg);
+    core::mem::forget(cases);
+}
